@@ -103,6 +103,10 @@ def run(ctx):
         ctx.log("simulation: %d records -> %d generic/concrete pairs, mismatches=%d" % (s["records"], s["concrete_cases"], s["mismatches"]))
         base.merge_summary(total, s)
         os.remove(cases)
+    need = ["ratio:VdivS", "view:Equals", "view:MaddM", "S:alias:ra", "S:alias:rb", "S:alias:rab", "big:MdotV"]
+    miss = [k for k in need if total.get("by_op", {}).get(k, 0) == 0]
+    if miss:
+        raise vlib.Infra("vacuous enumeration: case sets never replayed: %s" % miss)
     if total.get("by_op", {}).get("Equals:eps", 0) == 0:
         raise vlib.Infra("vacuous enumeration: no Equals/EQUALS case with the epsilon dimension")
     pairs = sorted(total.get("pairs", []))
